@@ -134,8 +134,8 @@ noncomputable def idealTop : PhiTop :=
   { pixUpper := fun y => π y, piFn := fun _ => 0, prime := fun i => if i = 0 then 0 else Spec.p i,
     piTab := fun v => π v, tiny := fun y a => Spec.phi y a }
 
-theorem idealTop_callOK (x : ℕ) : CallOK idealTop x :=
-  { pixUpperX := le_rfl, pixUpperSqrt := le_rfl, prime0 := by simp [idealTop],
+theorem idealTop_callOK (x a : ℕ) (ha : a ≤ π (Nat.sqrt x)) : CallOK idealTop x a :=
+  { pixUpperX := Or.inl le_rfl, pixUpperSqrt := ha, prime0 := by simp [idealTop],
     prime := fun i hi _ => by simp [idealTop]; omega, piTab := fun _ _ => rfl, tiny := fun _ _ _ => rfl }
 
 /-- a cache whose arrays hold spec values, with the geometry the constructor computes for `x = 10^8`, `a = 1229`
@@ -146,11 +146,12 @@ theorem idealCache_valOK : CacheValOK idealCache := fun _ _ _ _ _ => rfl
 
 /-- the identity order with fresh ideal caches: a legal execution of every call, with a `pi_noprint` (`piFn = 0`) that is
     WRONG everywhere — it is never consulted -/
-theorem ideal_callRunOK (x a : ℕ) : CallRunOK idealTop (List.range' 9 (a - 8)) (fun _ => (idealCache, 0)) x a :=
-  { top := idealTop_callOK x, order := List.Perm.refl _, cache := fun _ _ _ => cacheOK_initial idealCache_valOK }
+theorem ideal_callRunOK (x a : ℕ) (ha : a ≤ π (Nat.sqrt x)) :
+    CallRunOK idealTop (List.range' 9 (a - 8)) (fun _ => (idealCache, 0)) x a :=
+  { top := idealTop_callOK x a ha, order := List.Perm.refl _, cache := fun _ _ _ => cacheOK_initial idealCache_valOK }
 
 theorem ideal_phiExec (n : ℕ) :
     PhiExec (fun _ _ => idealTop) (fun _ a => List.range' 9 (a - 8)) (fun _ _ _ => (idealCache, 0)) n :=
-  { legendre := fun _ _ => ideal_callRunOK n _, meissel := fun _ _ => ideal_callRunOK n _ }
+  { legendre := fun _ _ => ideal_callRunOK n _ le_rfl, meissel := fun _ _ => ideal_callRunOK n _ (pi_iroot3_le_pi_sqrt n) }
 
 end Pc.ClosePhi
